@@ -44,11 +44,17 @@ def as_container(vals, kind):
         return np.array([int(v) for v in vals], dtype=np.int64)
     if kind == "list":
         return [float(v) for v in vals]
+    if kind == "strided":
+        # a non-contiguous view (a column of an (n, 2) table, every second element of a longer array): the same numbers
+        big = np.empty(2 * len(vals), dtype=float)
+        big[0::2] = vals
+        big[1::2] = -12345.678
+        return big[0::2]
     return np.array(vals, dtype=float)
 
 
 def pick_container(rng):
-    return rng.choice(["float64"] * 6 + ["int64", "int64", "list"])
+    return rng.choice(["float64"] * 6 + ["int64", "int64", "list", "strided", "strided"])
 
 
 def reuse_failures(o, fail):
@@ -113,6 +119,9 @@ class RepeatUnit(Unit):
                 N = rng.randint(2, 6)
                 cases.append({"x": gens.sorted_x(rng, N), "y": gens.values(rng, N), "r": a, "r2": b, "int": False})
         cases.append({"x": gens.sorted_x(rng, 4), "y": gens.values(rng, 4), "r": 0, "int": False})
+        for c_ in cases:
+            if not c_.get("int") and not c_.get("x_dtype") and rng.random() < 0.2:
+                c_["strided"] = True
         return cases
 
     def run(self, c):
@@ -120,6 +129,8 @@ class RepeatUnit(Unit):
         dt = np.dtype(c["x_dtype"]) if c.get("x_dtype") else (np.int64 if c.get("int") else float)
         x = np.array(c["x"], dtype=dt)
         y = np.array(c["y"], dtype=float)
+        if c.get("strided") and dt is float:
+            x, y = as_container(c["x"], "strided"), as_container(c["y"], "strided")      # columns of a table, not arrays of their own
         x0, y0 = x.copy(), y.copy()
         try:
             rx, ry = repeat(x, y, c["r"])
